@@ -103,7 +103,7 @@ func c14E2ERunChunk(rules []*c14E2ERule, evs []string, reps int) (outs []*c14E2E
 		return nil, fmt.Errorf("ctor: %w", serr)
 	}
 	c14E2EMu.Lock()
-	c14E2EHits = make([][]bool, len(rules))
+	c14E2EHits = make([][]int32, len(rules))
 	for i := range c14E2EHits {
 		c14E2EHits[i] = make([]int32, len(evs))
 	}
